@@ -53,6 +53,9 @@ pub struct OddCa {
 	/// universal tag and content of an otherName value
 	pub other_name: Option<(u8, Hex)>,
 	pub serial: Hex,
+	/// use `serial` as the raw INTEGER content (may be empty, negative, non-minimal)
+	#[serde(default)]
+	pub serial_raw: bool,
 	pub eku_arcs: Vec<u64>,
 	pub fill: u8,
 }
@@ -66,10 +69,10 @@ fn odd_ca() -> BoxedStrategy<OddCa> {
 			prop::option::of((prop::sample::select(vec![12u8, 22, 4, 2, 5, 48]), proptest::collection::vec(any::<u8>(), 0..8))),
 			proptest::collection::vec(any::<u8>(), 0..24),
 			proptest::collection::vec(any::<u64>(), 0..4),
-			any::<u8>(),
+			(any::<u8>(), prop::bool::weighted(0.3)),
 		),
 	)
-		.prop_map(|((key, nc_ip_lens, nc_on_excluded, san_ip_lens, path_len, key_usage), (sv, other_name, serial, eku_arcs, fill))| OddCa {
+		.prop_map(|((key, nc_ip_lens, nc_on_excluded, san_ip_lens, path_len, key_usage), (sv, other_name, serial, eku_arcs, (fill, serial_raw)))| OddCa {
 			key,
 			nc_ip_lens,
 			nc_on_excluded,
@@ -79,6 +82,7 @@ fn odd_ca() -> BoxedStrategy<OddCa> {
 			subject_values: sv.into_iter().map(|(t, c)| (t, Hex(c))).collect(),
 			other_name: other_name.map(|(t, c)| (t, Hex(c))),
 			serial: Hex(serial),
+			serial_raw,
 			eku_arcs,
 			fill,
 		})
@@ -132,7 +136,7 @@ pub fn forge_odd_ca(o: &OddCa) -> Result<Vec<u8>, String> {
 	let fx = keys::fixture(&o.key);
 	let tbs = enc_seq(&[
 		enc_tlv(0xa0, &crate::der::enc_uint(2)),
-		enc_uint_bytes(&o.serial.0),
+		if o.serial_raw { enc_tlv(0x02, &o.serial.0) } else { enc_uint_bytes(&o.serial.0) },
 		sig_alg_der(o.key.alg, FDigest::Sha256),
 		name_der.clone(),
 		enc_seq(&[enc_time(1_000_000_000), enc_time(2_000_000_000)]),
@@ -153,6 +157,9 @@ pub struct BytesCase {
 	pub text_edits: Vec<(u16, u8, u8)>,
 	pub label: u8,
 	pub alg: u8,
+	/// RFC 1421 style headers (name index, value index) inserted after the BEGIN line
+	#[serde(default)]
+	pub headers: Vec<(u8, u8)>,
 }
 
 fn base_bytes(b: &Base) -> Result<Vec<u8>, String> {
@@ -323,7 +330,19 @@ pub fn check_bytes(c: &BytesCase, info: &mut CaseInfo) -> Result<(), String> {
 		}
 		bytes = apply_mutation(&bytes, m, &r);
 	}
-	let mut text = pemstrict::encode(LABELS[c.label as usize % LABELS.len()], &bytes).into_bytes();
+	let mut text = pemstrict::encode(LABELS[c.label as usize % LABELS.len()], &bytes);
+	if !c.headers.is_empty() {
+		const NAMES: [&str; 6] = ["Proc-Type", "DEK-Info", "Comment", "X-Custom", "", "proc-type"];
+		const VALUES: [&str; 9] = ["4,ENCRYPTED", "4", "ENCRYPTED", "", ",", "AES-128-CBC,00", "a,b,c", "4,", " "];
+		let mut h = String::new();
+		for (n, v) in &c.headers {
+			h.push_str(&format!("{}: {}\n", NAMES[*n as usize % NAMES.len()], VALUES[*v as usize % VALUES.len()]));
+		}
+		h.push('\n');
+		let at = text.find('\n').map_or(0, |i| i + 1);
+		text.insert_str(at, &h);
+	}
+	let mut text = text.into_bytes();
 	for (pos, val, kind) in &c.text_edits {
 		if text.is_empty() {
 			break;
@@ -372,8 +391,9 @@ fn bytes_case() -> BoxedStrategy<BytesCase> {
 		proptest::collection::vec((any::<u16>(), any::<u8>(), any::<u8>()), 0..3),
 		any::<u8>(),
 		any::<u8>(),
+		prop_oneof![4 => Just(vec![]), 1 => proptest::collection::vec((any::<u8>(), any::<u8>()), 1..3)],
 	)
-		.prop_map(|(base, mutations, text_edits, label, alg)| BytesCase { base, mutations, text_edits, label, alg })
+		.prop_map(|(base, mutations, text_edits, label, alg, headers)| BytesCase { base, mutations, text_edits, label, alg, headers })
 		.boxed()
 }
 
